@@ -91,9 +91,54 @@ def replay_groups(groups, root, mode, seed):
         try:
             for b in behs:
                 replay_one(col, w, b, names, mode, seed)
+            if mode in ('C01', 'C11'):
+                representation_twins(col, w, len(b0['K']), mode, seed + key[0] * 100 + key[1] * 10 + key[2])
         finally:
             w.close()
     return col
+
+
+def representation_twins(col, w, nb, mode, seed):
+    """A fit is a function of the VALUES it is given: the same photometry handed over as float arrays, integer arrays or plain
+    lists must give the same result.  (Sources with integer-valued fluxes and errors are off the lattice, so this is a relation
+    between runs -- like the other C11 invariances -- not a comparison with spec rows.)"""
+    from sedfitter.source import Source
+    rng = random.Random(seed + 4242)
+    for _ in range(4):
+        flags = [rng.choice([1, 1, 1, 2, 3]) for _ in range(nb)]
+        if sum(1 for f in flags if f == 1) < 2:
+            flags[0] = flags[1] = 1
+        flux = [rng.randint(1, 5000) for _ in range(nb)]
+        err = [max(1, f // rng.randint(3, 20)) if fl == 1 else rng.choice([0, 1]) for f, fl in zip(flux, flags)]
+        obs = {}
+        for form in ('float', 'int', 'list'):
+            s = Source()
+            s.name = 'twin'
+            s.x = 0.0
+            s.y = 0.0
+            s.valid = np.array(flags) if form != 'list' else list(flags)
+            if form == 'float':
+                s.flux, s.error = np.array(flux, dtype=float), np.array(err, dtype=float)
+            elif form == 'int':
+                s.flux, s.error = np.array(flux, dtype=np.int64), np.array(err, dtype=np.int64)
+            else:
+                s.flux, s.error = list(flux), list(err)
+            try:
+                obs[form] = fw.project_info(w.fit(s))
+            except Exception as e:
+                obs[form] = repr(e)
+            col.replayed += 1
+        for form in ('int', 'list'):
+            a, b_ = obs['float'], obs[form]
+            if isinstance(a, str) or isinstance(b_, str):
+                same = (a == b_) if (isinstance(a, str) and isinstance(b_, str)) else False
+            else:
+                same = same_obs(a, b_)
+            if not same:
+                col.violation('%s:representation_twin' % mode, 'flags %r fluxes %r errors %r given as %s arrays fit differently from the same values given as float arrays'
+                              % (flags, flux, err, 'integer' if form == 'int' else 'plain list'),
+                              {'flags': flags, 'flux': flux, 'error': err, 'as_float': obs['float'], 'as_' + form: obs[form]})
+                break
 
 
 def describe(b):
